@@ -91,7 +91,37 @@ def run(pid, tier, seed):
     for i, src in some:
         chk.sample({"item": src, "outcome": outcomes.get(i), "must_be_rejected_because": items[i][1]})
     compile_batches(chk, r, items, outcomes, tier)
+    corpus_rejections(chk, seed, tier)
     return chk.finish(min_evaluations=10000, min_distinct=500)
+
+
+def corpus_rejections(chk, seed, tier):
+    """(c) the serde-valid programs of the semantic and graph corpora must be accepted by the derive and compile."""
+    from . import graph, sem
+    for name, corpus in (("sem", sem.sem_corpus(seed, tier, family="c16sem", fixed=False)),
+                         ("graph", graph.graph_corpus(seed, tier, family="c16graph"))):
+        try:
+            derive_errors = corpus.build()
+        except C.Inconclusive as e:
+            chk.note_inconclusive(str(e)[:800])
+            continue
+        n = sum(len(g.items) for g in corpus.gens)
+        chk.add_eval(n)
+        chk.coverage_extra.setdefault("corpus_items_compiled", {})[name] = n
+        seen = set()
+        for de in derive_errors:
+            if de["item"] in seen:
+                continue
+            seen.add(de["item"])
+            msg = re.sub(r"`[^`]*`", "`_`", de["message"] or "")[:80]
+            if "is not satisfied" in msg and "TS" in (de["message"] or "") and "Q" in (de["message"] or "") + "G":
+                # a dependent of a rejected item (`X: TS` not satisfied for a corpus type): secondary
+                if re.search(r"`(Q|G)[a-z]\d+", de["message"] or ""):
+                    continue
+            chk.violation(f"C16|corpus-item-rejected|{msg}", f"a generated ({name}) item that serde accepts is rejected: {de['message'][:200]}: "
+                          f"{(de['source'] or '')[:400]}", de, tags=["corpus-item-rejected"])
+    C.remove_crates("c16sem_")
+    C.remove_crates("c16graph_")
 
 
 def all_ts(it, must_err):
